@@ -127,7 +127,7 @@ MutOps(O, o) ==
   IN  UNION {{SetAttr(o, tf, SHalf), SetLabel(o, tf, 1, SInt), SetPos(o, tf, 0, SInt), SetValues(o, SInt),
               ReplaceValues(o, <<tf>>, <<Opd("Arr1", "float", 2)>>)} : tf \in Tf}
       \cup UNION {{SetItem(o, ti, Opd("List", "int", 2)), SetSlice(o, ti, 0, 1, SHalf)} : ti \in Ti}
-      \cup {AddVariable(o, "N", SHalf, "i"), AddAttribute(o, "note"), SetAttr(o, "memo", Opd("List", "int", 1)), ToggleStrict(o)}
+      \cup {AddVariable(o, "N", SHalf, "i"), AddVariable(o, "N", Opd("Arr1", "float", 2), ""), AddAttribute(o, "note"), SetAttr(o, "memo", Opd("List", "int", 1)), ToggleStrict(o)}
       \cup ModelOnly(O, o)
 SubMutOps(O, s) == {SetAttr(s, "Y", SHalf), SetPos(s, "X", 0, SInt), MutateList(s, "check"), AddVariable(s, "N", SInt, "")}
 NoCopyYet(O) == Len(O) = Cardinality(Owned(O, 1))
